@@ -24,6 +24,67 @@ func init() {
 	extraRules["C19"] = append(extraRules["C19"], more4EventSizeIsStoredSize)
 	extraRules["C13"] = append(extraRules["C13"], more4RangeRefusedByParserOnly)
 	extraRules["C12"] = append(extraRules["C12"], more4NoStaleTail)
+	extraRules["C05"] = append(extraRules["C05"], more4BodyOpenedBeforeReturn)
+	extraControls["C05"] = append(extraControls["C05"],
+		Control{Name: "GetObject hands out a body that opens the path on first read", Rule: "R-C05-7", File: "backend/posix/posix.go",
+			Old: "\t\tBody:               body,\n\t\tChecksumCRC32:      checksums.CRC32,", New: "\t\tBody:               lazyBody{path: objPath},\n\t\tChecksumCRC32:      checksums.CRC32,",
+			More: []Edit{{"backend/posix/posix.go", "func (p *Posix) HeadObject(ctx context.Context, input *s3.HeadObjectInput) (*s3.HeadObjectOutput, error) {\n", "type lazyBody struct{ path string }\n\nfunc (l lazyBody) Read(b []byte) (int, error) {\n\tf, err := os.Open(l.path)\n\tif err != nil {\n\t\treturn 0, err\n\t}\n\tdefer f.Close()\n\treturn f.Read(b)\n}\nfunc (l lazyBody) Close() error { return nil }\n\nfunc (p *Posix) HeadObject(ctx context.Context, input *s3.HeadObjectInput) (*s3.HeadObjectOutput, error) {\n"},
+				{"backend/posix/posix.go", "\tvar body io.ReadCloser = f\n", "\tvar body io.ReadCloser = f\n\t_ = body\n"}}, Expect: "body"},
+	)
+	extraRules["C11"] = append(extraRules["C11"], more4DeleteBucketClearsTmp)
+	extraRules["C04"] = append(extraRules["C04"], more4PruneProbesWhatItRemoves)
+	extraRules["C10"] = append(extraRules["C10"], more4LegalHoldOnEveryPath)
+	extraRules["C14"] = append(extraRules["C14"], more4EveryPatternTried)
+	extraRules["C18"] = append(extraRules["C18"], more4ProxyKeepsLists)
+	extraControls["C11"] = append(extraControls["C11"],
+		Control{Name: "DeleteBucket removes only the multipart area recursively", Rule: "R-C11-8", File: "backend/posix/posix.go",
+			Old: "\terr = os.RemoveAll(bucket)\n\tif err != nil {\n\t\treturn fmt.Errorf(\"remove bucket: %w\", err)\n\t}\n",
+			New: "\terr = os.RemoveAll(filepath.Join(bucket, metaTmpMultipartDir))\n\tif err != nil {\n\t\treturn fmt.Errorf(\"remove bucket: %w\", err)\n\t}\n\tos.Remove(filepath.Join(bucket, metaTmpDir))\n\tif err = os.Remove(bucket); err != nil {\n\t\treturn s3err.GetAPIError(s3err.ErrBucketNotEmpty)\n\t}\n", Expect: "removes-tmp-dir"},
+		Control{Name: "delete marker path truncates the live object", Rule: "R-C11-1", File: "backend/posix/posix.go",
+			Old: "\terr = os.RemoveAll(bucket)\n\tif err != nil {\n\t\treturn fmt.Errorf(\"remove bucket: %w\", err)\n\t}\n",
+			New: "\tos.Truncate(bucket, 0)\n\terr = os.RemoveAll(bucket)\n\tif err != nil {\n\t\treturn fmt.Errorf(\"remove bucket: %w\", err)\n\t}\n", Expect: "os.Truncate"},
+	)
+	extraControls["C04"] = append(extraControls["C04"],
+		Control{Name: "removeParents looks up the marker of the entry just removed", Rule: "R-C04-7", File: "backend/posix/posix.go",
+			Old: "\t\t_, err := p.meta.RetrieveAttribute(nil, bucket, parent, etagkey)\n", New: "\t\t_, err := p.meta.RetrieveAttribute(nil, bucket, objPath, etagkey)\n", Expect: "removeParents"},
+	)
+	extraControls["C10"] = append(extraControls["C10"],
+		Control{Name: "accepted governance bypass skips the legal hold", Rule: "R-C10-11", File: "auth/object_lock.go",
+			Old: "\t\t\t\t\t\t\terr = VerifyBucketPolicy(policy, userAccess, bucket, key, BypassGovernanceRetentionAction)\n\t\t\t\t\t\t\tif err != nil {\n\t\t\t\t\t\t\t\treturn s3err.GetAPIError(s3err.ErrObjectLocked)\n\t\t\t\t\t\t\t}\n\t\t\t\t\t\t}\n\t\t\t\t\tcase types.ObjectLockRetentionModeCompliance:",
+			New: "\t\t\t\t\t\t\terr = VerifyBucketPolicy(policy, userAccess, bucket, key, BypassGovernanceRetentionAction)\n\t\t\t\t\t\t\tif err != nil {\n\t\t\t\t\t\t\t\treturn s3err.GetAPIError(s3err.ErrObjectLocked)\n\t\t\t\t\t\t\t}\n\t\t\t\t\t\t\tcontinue\n\t\t\t\t\t\t}\n\t\t\t\t\tcase types.ObjectLockRetentionModeCompliance:", Expect: "legal-hold"},
+		Control{Name: "DeleteObjects lock-checks a de-duplicated copy of the list", Rule: "R-C10-12", File: "s3api/controllers/base.go",
+			Old: "\terr = auth.CheckObjectAccess(ctx.Context(), bucket, acct.Access, dObj.Objects, bypass, c.be)\n",
+			New: "\tuniq := dObj.Objects[:0:0]\n\tfor i, o := range dObj.Objects {\n\t\tif i == 0 || *o.Key != *dObj.Objects[i-1].Key {\n\t\t\tuniq = append(uniq, o)\n\t\t}\n\t}\n\terr = auth.CheckObjectAccess(ctx.Context(), bucket, acct.Access, uniq, bypass, c.be)\n", Expect: "lock-check-list"},
+	)
+	extraControls["C14"] = append(extraControls["C14"],
+		Control{Name: "FindMatch hands only patterns containing '*' to the matcher", Rule: "R-C14-7", File: "auth/bucket_policy_resources.go",
+			Old: "\tfor res := range r {\n\t\tif r.Match(res, resource) {", New: "\tfor res := range r {\n\t\tif res != resource && !strings.Contains(res, \"*\") {\n\t\t\tcontinue\n\t\t}\n\t\tif r.Match(res, resource) {", Expect: "every-pattern"},
+	)
+	extraControls["C18"] = append(extraControls["C18"],
+		Control{Name: "proxy sorts the client's part list before forwarding", Rule: "R-C18-12", File: "backend/s3proxy/s3.go",
+			Old: "func (s *S3Proxy) CompleteMultipartUpload(ctx context.Context, input *s3.CompleteMultipartUploadInput) (*s3.CompleteMultipartUploadOutput, error) {\n",
+			New: "func (s *S3Proxy) CompleteMultipartUpload(ctx context.Context, input *s3.CompleteMultipartUploadInput) (*s3.CompleteMultipartUploadOutput, error) {\n\tif input.MultipartUpload != nil {\n\t\tps := input.MultipartUpload.Parts\n\t\tfor i := 1; i < len(ps); i++ {\n\t\t\tif *ps[i].PartNumber < *ps[i-1].PartNumber {\n\t\t\t\tps[i], ps[i-1] = ps[i-1], ps[i]\n\t\t\t}\n\t\t}\n\t}\n", Expect: "input-lists"},
+	)
+	extraRules["C20"] = append(extraRules["C20"], more4RetryLoopsSeeErrors)
+	extraControls["C20"] = append(extraControls["C20"],
+		Control{Name: "link(): EEXIST retry ignores why the name could not be cleared", Rule: "R-C20-13", File: "backend/posix/with_otmpfile.go",
+			Old: "\t\t\terr := os.Remove(objPath)\n\t\t\tif err != nil && !errors.Is(err, fs.ErrNotExist) {\n\t\t\t\treturn fmt.Errorf(\"remove stale path: %w\", err)\n\t\t\t}\n\t\t\tcontinue\n",
+			New: "\t\t\tos.Remove(objPath)\n\t\t\tcontinue\n", Expect: "retry"},
+	)
+	extraRules["C08"] = append(extraRules["C08"], moreETagProvenance)
+	extraRules["C01"] = append(extraRules["C01"], func(p *Program, r *Report) {
+		r.Rule("R-C01-9", "the ETag of a completed multipart object is the S3 multipart ETag: its suffix is the number of listed parts (shared with R-C08-2)", 1)
+		multipartETagSuffix(p, r, "R-C01-9")
+	})
+	extraControls["C08"] = append(extraControls["C08"],
+		Control{Name: "UploadPartCopy takes the source object's ETag for a whole-object copy", Rule: "R-C08-9", File: "backend/posix/posix.go",
+			Old: "\tdataSum := hash.Sum(nil)\n\tetag := hex.EncodeToString(dataSum)\n\terr = p.meta.StoreAttribute(f.File(), *upi.Bucket, partPath, etagkey, []byte(etag))",
+			New: "\tdataSum := hash.Sum(nil)\n\tetag := hex.EncodeToString(dataSum)\n\tif b, rerr := p.meta.RetrieveAttribute(nil, srcBucket, srcObject, etagkey); rerr == nil && length == fi.Size() {\n\t\tetag = string(b)\n\t}\n\terr = p.meta.StoreAttribute(f.File(), *upi.Bucket, partPath, etagkey, []byte(etag))", Expect: "only-from-hash-sum"},
+	)
+	extraControls["C01"] = append(extraControls["C01"],
+		Control{Name: "multipart ETag suffix taken from the last part's number", Rule: "R-C01-9", File: "backend/common.go",
+			Old: "len(parts))", New: "int(*parts[len(parts)-1].PartNumber))", Expect: "suffix"},
+	)
 	extraControls["C12"] = append(extraControls["C12"],
 		Control{Name: "revert fix c4f3cd0: CRLF shifted out of the header buffer before it is stashed", Rule: "R-C12-8", File: "s3api/utils/signed-chunk-reader.go",
 			Old: "\tif !cr.isFirstHeader {\n\t\terr := readAndSkip(rdr, '\\r', '\\n')\n\t\tif err != nil {\n\t\t\treturn cr.handleRdrErr(err, header)\n\t\t}\n\t}\n",
@@ -136,8 +197,8 @@ func more4SignerPerRequest(p *Program, r *Report) {
 				"the signature is recomputed with a signer that outlives the request ("+what+"): its derived-key cache matches on access key id and day only, so after an account's secret is changed the old secret keeps authenticating and the new one is refused")
 		}
 	}
-	if n < 2 {
-		broken("%s: only %d signature recomputation sites found in s3api (expected 2)", rule, n)
+	if n < 1 {
+		broken("%s: no signature recomputation site found in s3api (2 on the reference tree)", rule)
 	}
 }
 
@@ -168,11 +229,26 @@ func more4UpdateWrittenBack(p *Program, r *Report) {
 			}
 			// consumers: the copy, loaded after the call, becomes a map element or a call argument
 			avoid := map[*ssa.BasicBlock]bool{}
-			for _, ref := range *al.Referrers() {
-				ld, isLd := ref.(*ssa.UnOp)
-				if !isLd || ld.Op != token.MUL || !mayPrecede(c, ld) {
-					continue
+			// reads of the copy (as a whole or of one of its fields) after the call
+			var reads []*ssa.UnOp
+			var collect func(addr ssa.Value, depth int)
+			collect = func(addr ssa.Value, depth int) {
+				if addr.Referrers() == nil || depth > 3 {
+					return
 				}
+				for _, ref := range *addr.Referrers() {
+					switch x := ref.(type) {
+					case *ssa.UnOp:
+						if x.Op == token.MUL && mayPrecede(c, x) {
+							reads = append(reads, x)
+						}
+					case *ssa.FieldAddr:
+						collect(x, depth+1)
+					}
+				}
+			}
+			collect(al, 0)
+			for _, ld := range reads {
 				for _, u := range *ld.Referrers() {
 					switch x := u.(type) {
 					case *ssa.MapUpdate:
@@ -217,8 +293,8 @@ func more4UpdateWrittenBack(p *Program, r *Report) {
 				"the account modified by updateAcc is a local copy that is not written back (map element / storing call) before the success return at "+bad+": the update is acknowledged and lost")
 		}
 	}
-	if n < 3 {
-		broken("R-C17-15: only %d updateAcc call sites found in auth (expected at least 3)", n)
+	if n < 1 {
+		broken("R-C17-15: no updateAcc call site found in auth (4 on the reference tree)")
 	}
 }
 
@@ -367,8 +443,8 @@ func more4PageSizeIsTheRequests(p *Program, r *Report) {
 				"a request whose max-keys is set can reach the walk without its value being taken (it is replaced by a default for some values): a max-keys=0 request returns entries, i.e. more than max-keys per page")
 		}
 	}
-	if n < 4 {
-		broken("R-C07-9: only %d walk calls found in the posix/scoutfs listings (expected at least 4)", n)
+	if n < 2 {
+		broken("R-C07-9: only %d walk calls found in the posix/scoutfs listings (5 on the reference tree)", n)
 	}
 }
 
@@ -448,8 +524,8 @@ func more4BothVersionLists(p *Program, r *Report) {
 			}
 		}
 	}
-	if n < 3 {
-		broken("R-C09-7: only %d calls of the per-key callback found in WalkVersions (expected 3)", n)
+	if n < 1 {
+		broken("R-C09-7: no call of the per-key callback found in WalkVersions (3 on the reference tree)")
 	}
 }
 
@@ -565,7 +641,7 @@ func more4RangeRefusedByParserOnly(p *Program, r *Report) {
 			}
 		}
 	}
-	if n < 50 {
+	if n < 15 {
 		broken("R-C13-8: only %d GetAPIError calls found in the front end", n)
 	}
 	if bad == 0 {
@@ -625,5 +701,541 @@ func more4NoStaleTail(p *Program, r *Report) {
 	}
 	if n < 1 {
 		broken("R-C12-8: no in-place shift found in the chunk readers (the signed reader removes parsed headers from the caller's buffer that way)")
+	}
+}
+
+// ---- R-C20-13: a retry loop does not spin on a failure it ignores -------------------------------------------------------
+
+func more4RetryLoopsSeeErrors(p *Program, r *Report) {
+	r.Rule("R-C20-13", "no livelock: inside an unbounded retry loop of the storage back ends (a cycle that is not a range / counted loop and goes round again after a failed step) no file-system call has its error dropped; a retry that ignores why its repair step failed spins for ever on a name it cannot clear (a non-empty directory) and the request never returns", 1)
+	n, loops := 0, 0
+	for _, f := range p.FuncsIn("backend/posix", "backend", "backend/scoutfs", "backend/meta") {
+		for _, b := range f.Blocks {
+			if !inCycle(f, b) || cycleIsBounded(f, b) {
+				continue
+			}
+			loops++
+			for _, in := range b.Instrs {
+				c, ok := in.(*ssa.Call)
+				if !ok {
+					continue
+				}
+				cn := calleeName(c)
+				if !primitiveEffects[cn] && !strings.HasPrefix(cn, "os.") && !strings.HasPrefix(cn, "golang.org/x/sys/unix.") && !strings.HasPrefix(cn, "syscall.") {
+					continue
+				}
+				if len(errValues(c)) == 0 && errorResultIdx(c.Common().Signature()) < 0 {
+					continue
+				}
+				n++
+				dropped := c.Referrers() == nil || len(*c.Referrers()) == 0
+				if !dropped && c.Common().Signature().Results().Len() > 1 {
+					dropped = len(errValues(c)) == 0
+				}
+				r.Check(!dropped, "R-C20-13", fnName(f)+"/"+cn+"@retry", p.Pos(c.Pos()), "error consulted inside the retry loop",
+					"the error of "+cn+" is dropped inside an unbounded retry loop: when that step keeps failing (e.g. removing a non-empty directory that occupies the name) the loop never ends, the request hangs and a CPU is pinned")
+			}
+		}
+	}
+	if loops < 1 || n < 1 {
+		broken("R-C20-13: no unbounded retry loop with file-system calls found in the back ends (the EEXIST retry of link() expected): %d loops, %d calls", loops, n)
+	}
+}
+
+// cycleIsBounded: the cycle through b is a range loop or a counted loop (its header tests a range/induction value).
+func cycleIsBounded(f *ssa.Function, b *ssa.BasicBlock) bool {
+	for _, h := range f.Blocks {
+		if len(h.Succs) != 2 || !reachable(f, h, nil)[b] || !reachable(f, b, nil)[h] {
+			continue
+		}
+		ifi, ok := h.Instrs[len(h.Instrs)-1].(*ssa.If)
+		if !ok {
+			continue
+		}
+		// leaving the cycle from h: one successor cannot come back to h
+		leaves := false
+		for _, s := range h.Succs {
+			if !reachable(f, s, nil)[h] {
+				leaves = true
+			}
+		}
+		if !leaves {
+			continue
+		}
+		switch c := ifi.Cond.(type) {
+		case *ssa.Extract: // ok of a range `next`
+			if _, isNext := c.Tuple.(*ssa.Next); isNext {
+				return true
+			}
+		case *ssa.BinOp: // i < n with i an induction phi
+			for _, v := range []ssa.Value{c.X, c.Y} {
+				if ph, isPhi := v.(*ssa.Phi); isPhi && ph.Block() == h {
+					return true
+				}
+				if bo, isBo := v.(*ssa.BinOp); isBo {
+					if ph, isPhi := bo.X.(*ssa.Phi); isPhi && ph.Comment == "rangeindex" {
+						return true
+					}
+				}
+			}
+		}
+	}
+	return false
+}
+
+// ---- R-C11-8: deleting a bucket removes its bookkeeping directory as a whole ---------------------------------------------
+
+func more4DeleteBucketClearsTmp(p *Program, r *Report) {
+	r.Rule("R-C11-8", "leftover temporary data never blocks a bucket: posix.DeleteBucket removes recursively either the bucket itself or the bucket's whole temp directory (metaTmpDir), not only a subdirectory of it (a named temp file of an interrupted upload lies directly under it)", 1)
+	f := p.Func(posixP + "DeleteBucket")
+	tmpDir, _ := pkgConstString(p, "backend/posix", "metaTmpDir")
+	ok := false
+	pos := p.Pos(f.Pos())
+	what := "no recursive removal at all"
+	for _, c := range callsTo(f, "os.RemoveAll") {
+		path := callArgs(c)[0]
+		if prm, isP := path.(*ssa.Parameter); isP && typeStr(prm.Type()) == "string" {
+			ok = true // the bucket itself
+			continue
+		}
+		if jc, isC := path.(*ssa.Call); isC && calleeName(jc) == "path/filepath.Join" {
+			el := variadicInts(jc.Call.Args[len(jc.Call.Args)-1])
+			if len(el) == 2 {
+				_, first := el[0].(*ssa.Parameter)
+				s, isS := constString(el[1])
+				if first && isS && s == tmpDir {
+					ok = true
+					continue
+				}
+				if first && isS && what != "" {
+					what = "only " + s + " is removed recursively"
+					pos = p.Pos(c.Pos())
+				}
+			}
+		}
+	}
+	r.Check(ok && tmpDir != "", "R-C11-8", fnName(f)+"/removes-tmp-dir", pos, "recursive removal covers the temp directory",
+		"DeleteBucket does not remove the bucket's temp directory as a whole ("+what+"): a temp file left directly under it by an interrupted upload makes a bucket that lists as empty undeletable for ever")
+}
+
+// ---- R-C04-7: pruning removes the directory it examined ------------------------------------------------------------------
+
+func more4PruneProbesWhatItRemoves(p *Program, r *Report) {
+	r.Rule("R-C04-7", "deleting a key never removes another object: in the parent-pruning loop of posix.removeParents the directory removed is the very directory whose 'explicitly uploaded' marker (etag attribute) was looked up just before", 1)
+	f := p.Func(posixP + "removeParents")
+	etagKey, _ := pkgConstString(p, "backend/posix", "etagkey")
+	var probed []ssa.Value
+	for _, mc := range metaCallsIn(f) {
+		if mc.method == "RetrieveAttribute" && mc.keyArg == etagKey {
+			a := mc.call.Common().Args
+			if len(a) >= 3 {
+				probed = append(probed, a[2])
+			}
+		}
+	}
+	n := 0
+	for _, c := range callsTo(f, "os.Remove", "os.RemoveAll", "golang.org/x/sys/unix.Rmdir", "syscall.Rmdir") {
+		n++
+		path := callArgs(c)[0]
+		ok := false
+		if jc, isC := path.(*ssa.Call); isC && calleeName(jc) == "path/filepath.Join" {
+			for _, e := range variadicInts(jc.Call.Args[len(jc.Call.Args)-1]) {
+				for _, pv := range probed {
+					if e == pv {
+						ok = true
+					}
+				}
+			}
+		}
+		r.Check(ok, "R-C04-7", fnName(f)+"/remove#"+itoa(n), p.Pos(c.Pos()), "removes the directory whose marker was looked up",
+			"the directory removed while pruning is not the one whose etag attribute was looked up: an explicitly uploaded directory object (PUT dir/) above a deleted key is removed with its metadata although the request never named it")
+	}
+	if n == 0 || len(probed) == 0 {
+		broken("R-C04-7: removeParents no longer looks up the etag attribute and removes a directory (anchor drift)")
+	}
+}
+
+// ---- R-C10-11 / R-C10-12 ----------------------------------------------------------------------------------------------------
+
+func more4LegalHoldOnEveryPath(p *Program, r *Report) {
+	r.Rule("R-C10-11", "a legal hold is consulted for every object that exists: in auth.CheckObjectAccess no path from an object's retention lookup goes on to the next object or to the nil return without passing the GetObjectLegalHold lookup, except the edge on which the retention lookup said ErrNoSuchKey (a granted governance bypass does not lift a legal hold)", 1)
+	r.Rule("R-C10-12", "every deleted version is lock-checked: the list handed to auth.CheckObjectAccess in DeleteObjects is the decoded request list that is handed to the backend (not a filtered or de-duplicated copy)", 1)
+	f := p.Func(fnCheckObjAccess)
+	var ret, hold ssa.CallInstruction
+	for _, c := range callsIn(f) {
+		if !isBackendCall(c) {
+			continue
+		}
+		switch c.Common().Method.Name() {
+		case "GetObjectRetention":
+			ret = c
+		case "GetObjectLegalHold":
+			hold = c
+		}
+	}
+	if ret == nil || hold == nil {
+		broken("R-C10-11: lock lookups not found in CheckObjectAccess")
+	}
+	var errV ssa.Value
+	for _, v := range resultValues(ret, 1) {
+		errV = v
+	}
+	byVal := map[string]string{}
+	for nm, v := range pkgConstsOfType(p, "s3err", "ErrorCode") {
+		byVal[v] = nm
+	}
+	var skip []edge
+	for _, ce := range condEdgesOf(f) {
+		cc, ok := ce.cond.(*ssa.Call)
+		if !ok || calleeName(cc) != "errors.Is" || len(cc.Call.Args) < 2 || ce.viaPhi {
+			continue
+		}
+		uses := cc.Call.Args[0] == errV
+		if ph, isPhi := cc.Call.Args[0].(*ssa.Phi); isPhi {
+			for _, e := range ph.Edges {
+				if e == errV {
+					uses = true
+				}
+			}
+		}
+		if !uses {
+			continue
+		}
+		names, _ := constNamesDeep(p, cc.Call.Args[1])
+		for _, nm := range names {
+			nm = strings.TrimPrefix(nm, "s3err.")
+			if byVal[nm] != "" {
+				nm = byVal[nm]
+			}
+			if nm == "ErrNoSuchKey" {
+				skip = append(skip, ce.holds)
+			}
+		}
+	}
+	avoid := map[*ssa.BasicBlock]bool{hold.Block(): true}
+	bad := ""
+	if os.Getenv("VGW_DEBUG") != "" {
+		fmt.Fprintf(os.Stderr, "R-C10-11: ret block %d hold block %d skip edges %d errV %v\n", ret.Block().Index, hold.Block().Index, len(skip), errV)
+	}
+	if hold.Block() != ret.Block() {
+		for i, s := range ret.Block().Succs {
+			isSkip := false
+			for _, e := range skip {
+				if e.from == ret.Block() && e.succ == i {
+					isSkip = true
+				}
+			}
+			if isSkip {
+				continue
+			}
+			reach := reachableAvoiding(f, s, skip, avoid)
+			if reach[ret.Block()] {
+				bad = "the next object's lookups"
+			}
+			// a literal `return nil` (a nil that reaches a return through the merged result of a helper is
+			// not followed: the tests in between decide it)
+			for _, st := range errReturnSites(f) {
+				if isNilConst(st.val) && st.pred == nil && reach[st.ret.Block()] {
+					bad = "the nil return at " + p.Pos(st.ret.Pos())
+				}
+			}
+		}
+	}
+	r.Check(bad == "", "R-C10-11", fnName(f)+"/legal-hold-on-every-path", p.Pos(hold.Pos()), "the legal hold lookup is on every path of an existing object",
+		"from an object's retention lookup "+bad+" can be reached without the legal hold lookup (other than for a missing key): a caller whose governance bypass is accepted deletes or overwrites a version under legal hold")
+
+	// R-C10-12
+	n := 0
+	for _, bc := range backendCalls(s3Handlers(p)) {
+		if bc.method != "DeleteObjects" {
+			continue
+		}
+		for _, c := range callsTo(bc.fn, fnCheckObjAccess) {
+			n++
+			var listArg ssa.Value
+			for _, a := range callArgs(c) {
+				if _, isSl := a.Type().Underlying().(*types.Slice); isSl {
+					listArg = a
+				}
+			}
+			var given []ssa.Value
+			for _, a := range callArgs(bc.call) {
+				given = append(given, structFieldAtCall(a, "Objects", 0)...)
+				for _, dv := range structFieldAtCall(a, "Delete", 0) {
+					given = append(given, structFieldAtCall(dv, "Objects", 0)...)
+				}
+			}
+			same := false
+			var lists []ssa.Value
+			if listArg != nil {
+				lists = append(lists, listArg)
+				lists = append(lists, fieldSources(listArg)...)
+			}
+			for _, g := range given {
+				for _, g2 := range append([]ssa.Value{g}, fieldSources(g)...) {
+					for _, l := range lists {
+						if g2 == l || (loadedField(l) != "" && loadedField(g2) == loadedField(l)) {
+							same = true
+						}
+					}
+				}
+			}
+			r.Check(listArg != nil && same, "R-C10-12", bc.key+"=>lock-check-list", p.Pos(c.Pos()), "the lock check sees the list the backend deletes",
+				"auth.CheckObjectAccess is given another list than the one handed to the backend's DeleteObjects (a filtered / de-duplicated copy): entries the check never saw, e.g. a protected version listed after an unprotected version of the same key, are deleted")
+		}
+	}
+	if n < 1 {
+		broken("R-C10-12: no lock check found in the handler of DeleteObjects")
+	}
+}
+
+// loadedField: "<alloc>.<field>" for a value loaded from a field of a local struct, "" otherwise.
+func loadedField(v ssa.Value) string {
+	if v == nil {
+		return ""
+	}
+	ld, ok := v.(*ssa.UnOp)
+	if !ok || ld.Op != token.MUL {
+		return ""
+	}
+	fa, ok := ld.X.(*ssa.FieldAddr)
+	if !ok {
+		return ""
+	}
+	al, ok := fa.X.(*ssa.Alloc)
+	if !ok {
+		return ""
+	}
+	return al.Name() + "." + fieldName(al.Type(), fa.Field)
+}
+
+// ---- R-C14-7: every resource pattern of a statement is tried -----------------------------------------------------------------
+
+// isGlobMatcher: the wildcard matcher, by role: a function of package auth from two strings to bool that compares
+// bytes with '*' and with '?' (Resources.Match, or the free function it is turned into).
+func isGlobMatcher(g *ssa.Function) bool {
+	if g == nil || g.Pkg == nil || g.Pkg.Pkg.Path() != modPath+"/auth" || g.Parent() != nil || len(g.Blocks) == 0 {
+		return false
+	}
+	res := g.Signature.Results()
+	if res.Len() != 1 {
+		return false
+	}
+	if bt, isB := res.At(0).Type().Underlying().(*types.Basic); !isB || bt.Kind() != types.Bool {
+		return false
+	}
+	nStr := 0
+	for i := 0; i < g.Signature.Params().Len(); i++ {
+		if bt, isB := g.Signature.Params().At(i).Type().Underlying().(*types.Basic); isB && bt.Kind() == types.String {
+			nStr++
+		}
+	}
+	if nStr != 2 {
+		return false
+	}
+	star, qm := false, false
+	for _, b := range g.Blocks {
+		for _, in := range b.Instrs {
+			bo, ok := in.(*ssa.BinOp)
+			if !ok || (bo.Op != token.EQL && bo.Op != token.NEQ) {
+				continue
+			}
+			for _, v := range []ssa.Value{bo.X, bo.Y} {
+				if k, isC := constInt(v); isC {
+					if bt, isB := v.Type().Underlying().(*types.Basic); isB && (bt.Kind() == types.Uint8 || bt.Kind() == types.UntypedRune || bt.Kind() == types.Int32) {
+						star = star || k == '*'
+						qm = qm || k == '?'
+					}
+				}
+			}
+		}
+	}
+	return star && qm
+}
+
+func more4EveryPatternTried(p *Program, r *Report) {
+	r.Rule("R-C14-7", "the evaluator tries every pattern: in Resources.FindMatch each resource of the statement reaches the glob matcher ((auth.Resources).Match, or the function it wraps, recognised by role); no test on the pattern's text skips it (a pattern whose only wildcard is '?' is still a pattern)", 1)
+	f := p.Func("(auth.Resources).FindMatch")
+	var ms []ssa.CallInstruction
+	for _, c := range callsIn(f) {
+		g := c.Common().StaticCallee()
+		if isGlobMatcher(g) {
+			ms = append(ms, c)
+			continue
+		}
+		// a thin wrapper around the matcher
+		if g != nil && len(g.Blocks) == 1 {
+			for _, c2 := range callsIn(g) {
+				if isGlobMatcher(c2.Common().StaticCallee()) {
+					ms = append(ms, c)
+				}
+			}
+		}
+	}
+	if len(ms) == 0 {
+		r.Viol("R-C14-7", fnName(f)+"/matcher", p.Pos(f.Pos()), "FindMatch does not call the glob matcher")
+		return
+	}
+	for i, m := range ms {
+		// the loop header: a block with a range `next` from which m is reachable and which m's block can reach
+		bad := ""
+		found := false
+		for _, h := range f.Blocks {
+			isHdr := false
+			for _, in := range h.Instrs {
+				if _, ok := in.(*ssa.Next); ok {
+					isHdr = true
+				}
+				if ph, ok := in.(*ssa.Phi); ok && ph.Comment == "rangeindex" {
+					isHdr = true
+				}
+			}
+			if !isHdr || !reachable(f, h, nil)[m.Block()] || !reachable(f, m.Block(), nil)[h] {
+				continue
+			}
+			found = true
+			avoid := map[*ssa.BasicBlock]bool{m.Block(): true}
+			for _, s := range h.Succs {
+				if !reachable(f, s, nil)[m.Block()] {
+					continue // the exit of the loop
+				}
+				if s == m.Block() {
+					continue
+				}
+				reach := reachableAvoiding(f, s, nil, avoid)
+				if reach[h] {
+					bad = "the next pattern"
+				}
+				for _, rt := range returnsOf(f) {
+					if reach[rt.Block()] {
+						bad = "a return"
+					}
+				}
+			}
+		}
+		r.Check(found && bad == "", "R-C14-7", fnName(f)+"/every-pattern-matched#"+itoa(i+1), p.Pos(m.Pos()), "each pattern reaches the matcher",
+			"a pattern of the statement can be skipped without being handed to the matcher ("+bad+" is reached first): patterns of some form (e.g. with '?' but no '*') never match, so a Deny on them stops denying and an Allow stops allowing")
+	}
+}
+
+// ---- R-C18-12: the proxy forwards the client's lists as they came --------------------------------------------------------------
+
+func more4ProxyKeepsLists(p *Program, r *Report) {
+	r.Rule("R-C18-12", "the proxy does not repair requests: no S3Proxy method sorts, reverses or writes into a list that belongs to its input (a request the endpoint would refuse, e.g. parts out of order, must be refused through the proxy too)", 20)
+	n := 0
+	for _, f := range p.FuncsIn("backend/s3proxy") {
+		if f.Signature.Recv() == nil || !strings.HasSuffix(typeStr(f.Signature.Recv().Type()), "S3Proxy") || f.Parent() != nil {
+			continue
+		}
+		n++
+		fromInput := func(v ssa.Value) bool {
+			if mi, ok := v.(*ssa.MakeInterface); ok {
+				v = mi.X
+			}
+			for _, rt := range terminalRoots(Origins(v, nil)) {
+				if rt.Kind == "param" {
+					if prm, ok := rt.Val.(*ssa.Parameter); ok && prm != f.Params[0] {
+						return true
+					}
+				}
+				if rt.Kind == "field" {
+					// a field of the input struct
+					return true
+				}
+			}
+			return false
+		}
+		bad := ""
+		for _, fn := range withAnon(f) {
+			for _, c := range callsIn(fn) {
+				cn := calleeName(c)
+				if strings.HasPrefix(cn, "sort.") || strings.HasPrefix(cn, "slices.Sort") || cn == "slices.Reverse" {
+					a := c.Common().Args
+					if len(a) > 0 && fromInput(a[0]) {
+						bad = cn + " at " + p.Pos(c.Pos())
+					}
+				}
+			}
+			for _, b := range fn.Blocks {
+				for _, in := range b.Instrs {
+					st, ok := in.(*ssa.Store)
+					if !ok {
+						continue
+					}
+					if ia, isIA := st.Addr.(*ssa.IndexAddr); isIA {
+						if _, isSl := ia.X.Type().Underlying().(*types.Slice); isSl && fromInput(ia.X) {
+							bad = "an element store at " + p.Pos(st.Pos())
+						}
+					}
+				}
+			}
+		}
+		r.Check(bad == "", "R-C18-12", fnName(f)+"/input-lists-untouched", p.Pos(f.Pos()), "input lists forwarded as they came",
+			"the proxy rewrites a list of its input ("+bad+"): a request the endpoint itself answers with an error (parts listed out of order: InvalidPartOrder) succeeds through the proxy")
+	}
+	if n < 7 {
+		broken("R-C18-12: only %d S3Proxy methods found", n)
+	}
+}
+
+// ---- R-C05-7: a GET streams the inode that was there when it was answered ----------------------------------------------
+
+func more4BodyOpenedBeforeReturn(p *Program, r *Report) {
+	r.Rule("R-C05-7", "the body served is the object that was answered for: every non-nil Body in a result of posix.GetObject is (built on) a file opened by os.Open inside GetObject before it returns; a body that opens the path when it is first read serves whatever is at that name by then, under the length, ETag and metadata of the object it replaced", 1)
+	f := p.Func(posixP + "GetObject")
+	n := 0
+	for _, ret := range returnsOf(f) {
+		if len(ret.Results) == 0 {
+			continue
+		}
+		fields, _ := litFieldsAt(ret.Results[0], ret)
+		for _, bv := range fields["Body"] {
+			if isNilConst(bv) {
+				continue
+			}
+			n++
+			opened := false
+			var walk func(v ssa.Value, depth int)
+			seen := map[ssa.Value]bool{}
+			walk = func(v ssa.Value, depth int) {
+				if v == nil || seen[v] || depth > 8 {
+					return
+				}
+				seen[v] = true
+				for _, rt := range Origins(v, nil) {
+					if rt.Kind == "call" && rt.Desc == "os.Open" && rt.Call != nil && rt.Call.Parent() == f {
+						opened = true
+					}
+				}
+				// a wrapper literal (&FileSectionReadCloser{R: ..., F: f}): look into its fields
+				x := v
+				if mi, ok := x.(*ssa.MakeInterface); ok {
+					x = mi.X
+				}
+				if ph, ok := x.(*ssa.Phi); ok {
+					for _, e := range ph.Edges {
+						walk(e, depth+1)
+					}
+				}
+				if fs, _ := litFields(x); fs != nil {
+					for _, vs := range fs {
+						for _, fv := range vs {
+							walk(fv, depth+1)
+						}
+					}
+				}
+				if c, ok := x.(*ssa.Call); ok {
+					for _, a := range c.Call.Args {
+						walk(a, depth+1)
+					}
+				}
+			}
+			walk(bv, 0)
+			r.Check(opened, "R-C05-7", fnName(f)+"/body#"+itoa(n), p.Pos(ret.Pos()), "Body built on a file opened in GetObject",
+				"the Body of this result is not built on a file opened before GetObject returns (it is opened by path later, e.g. on first read): an overwrite or delete in between makes the response mix the old object's headers with the new object's bytes")
+		}
+	}
+	if n < 1 {
+		broken("R-C05-7: no result with a Body found in posix.GetObject")
 	}
 }
